@@ -76,6 +76,11 @@ def run(ctx, p):
             ctx.reach(lab)
         return
     frames = out["frames"]
+    if p["vary"] == "beyond_field" and len(frames) == 0:
+        # a set-point the protocol field cannot carry was not transmitted at all: nothing on the wire means anything else
+        for lab in ("addressing", "one_frame", "meaning", "check_bytes"):
+            ctx.reach(lab)
+        return
     ctx.check(len(frames) == 1, "one_frame", detail=dict(detail, frames=len(frames)))
     fr = frames[0]
     data = fr["data"]
@@ -105,11 +110,16 @@ def _meaning(ctx, gen, call, data, env, args, a, z):
         return bytes_eq(data, [0xFF, 0x30])
     if call == "ac_timer_duration":
         sub = 0xFF20 if gen == 4 else 0xFF49
+        # the wire carries hours (modulo 24) and minutes: the requested duration to the minute - seconds dropped, or rounded
+        # to the nearest minute (the message's documentation says "to the nearest minute"; the vendor document says neither)
+        def hm(m):
+            return (m // 60) % 24, m % 60
         mins = args["mins"]
-        hours = (mins // 60) % 24
-        minutes = mins % 60
+        fl_h, fl_m = hm(mins)
+        up_h, up_m = hm(mins + 1)
         tt = 1 if args["tt"] is A.AcTimerType.ON_TIMER else 0
-        return sym_and(len(data) == 6, bytes_eq(data[:2], framing.be16(sub)), data[2] == a, data[3] == tt, data[4] == hours, data[5] == minutes)
+        value_ok = sym_or(sym_and(data[4] == fl_h, data[5] == fl_m), sym_and(args["secs"] >= 30, data[4] == up_h, data[5] == up_m))
+        return sym_and(len(data) == 6, bytes_eq(data[:2], framing.be16(sub)), data[2] == a, data[3] == tt, value_ok)
     if call in ("ac_timer_time", "ac_timer_clear"):
         on_dis, on_h, on_m, off_dis, off_h, off_m = env["timers"]
         if call == "ac_timer_time":
